@@ -1,0 +1,20 @@
+//go:build verif
+
+package astprinter
+
+// Contracts for the deductive verifier in /verif (comment-only file, build tag verif).
+//
+// C05, printing round-trips: what a variable definition prints. Its variable is printed, and its default value is
+// printed whenever one is defined - `= null` included: `$a: Int = null` and `$a: Int` are different documents (the
+// first has a default value, and a non-null variable with it is invalid), so the print of the first must not be the
+// second.
+//@ func printVisitor.EnterVariableDefinition
+//@   requires p != nil && p.document != nil
+//@   ghost var g_vals int = 0
+//@   ghost var g_last int = -1
+//@   at call Document.PrintValue: ghost g_vals = g_vals + 1
+//@   at call Document.PrintValue: ghost g_last = arg1.Ref
+//@   ensures {the.variable.is.printed.and.a.default.value.whenever.one.is.defined.null.included} g_vals == ite(old(p.document.VariableDefinitions[ref].DefaultValue.IsDefined), 2, 1)
+//@   ensures {the.default.value.printed.is.the.definitions.own} old(p.document.VariableDefinitions[ref].DefaultValue.IsDefined) ==> g_last == old(p.document.VariableDefinitions[ref].DefaultValue.Value.Ref)
+//@   modifies *, count(*)
+//@   safety none
